@@ -44,6 +44,7 @@ func TestC07(t *testing.T) {
 			},
 			"prefill":     func(t *rapid.T) { mc.prefillAction(t); mutate() },
 			"bulkDelete":  func(t *rapid.T) { mc.ActBulkDelete(t); mutate() },
+			"dropColumn":  mc.ActDropColumn,
 			"lateColumn":  mc.ActLateColumn,
 			"createIndex": func(t *rapid.T) { mc.ActCreateIndex(t) },
 			"createSortIndexOrTrigger": func(t *rapid.T) {
